@@ -100,6 +100,23 @@ def main():
                     rb = r.encode("utf-8") if isinstance(r, str) else bytes(r)
                     if rb != retb:
                         rec["problems"].append(["function-of-the-model", label + "-differs", "output differs within one process"])
+                # history: the SAME writer object used again after the model got a new root (old root below it)
+                try:
+                    from flamapy.metamodels.fm_metamodel.models import Feature, Relation
+                    mm = S.build(spec)
+                    wobj = W(os.path.join(work, "reuse1." + ext), mm)
+                    wobj.transform()
+                    nr = Feature("NewRoot9", [])
+                    nr.add_relation(Relation(nr, [mm.root], 1, 1))
+                    mm.root = nr
+                    t_reused = wobj.transform()
+                    t_fresh = W(os.path.join(work, "reuse2." + ext), mm).transform()
+                    if t_reused != t_fresh:
+                        rec["problems"].append(["function-of-the-model", "reused-writer-differs",
+                                                "a writer object reused after the model's root was replaced writes something else "
+                                                "than a new writer on the same model"])
+                except Exception as e:  # noqa: BLE001
+                    rec["problems"].append(["no-exception", f"raises:{type(e).__name__}@reused-writer", str(e)[:200]])
                 # UTF-8 out
                 try:
                     text = data.decode("utf-8")
@@ -133,7 +150,7 @@ def main():
     out = {"env": {"PYTHONHASHSEED": os.environ.get("PYTHONHASHSEED"), "LC_ALL": os.environ.get("LC_ALL"),
                    "PYTHONUTF8": os.environ.get("PYTHONUTF8"), "PYTHONIOENCODING": os.environ.get("PYTHONIOENCODING"),
                    "preferred_encoding": locale.getpreferredencoding(False), "utf8_mode": sys.flags.utf8_mode,
-                   "dev_mode": sys.flags.dev_mode, "hash_of_a": hash("a")},
+                   "dev_mode": sys.flags.dev_mode, "optimize": sys.flags.optimize, "hash_of_a": hash("a")},
            "results": results, "reach": reach.counts()}
     with open(out_file, "w", encoding="utf-8") as fh:
         json.dump(out, fh)
